@@ -300,7 +300,13 @@ class CustomFootnoteDef(footnote.FootnoteDef):
 
     def __init__(self, match: re.Match[str]) -> None:
         super().__init__(match)
-        self._prefix: str = re.escape(match.group().expandtabs(4))
+        # Tab stops count from the start of the line, not from the start of the match (the
+        # definition may sit inside a quote or list item).
+        text = match.string
+        line_start = text.rfind("\n", 0, match.start()) + 1
+        before = text[line_start : match.start()].expandtabs(4)
+        upto = text[line_start : match.end()].expandtabs(4)
+        self._prefix: str = re.escape(upto[len(before) :])
 
     @override
     @classmethod
